@@ -99,35 +99,13 @@ theorem created_refines (C : Crypto) (hC : HashWF C) (pk sk : Bytes) (ops : List
   obtain ⟨c, j, h1, h2⟩ := created C pk sk
   exact ⟨c, j, h1, (live_refinement C hC ops c _ {} h2 hv).1⟩
 
-/-- **C01, reopen part.**  If the oplog opens to the header of the last flush and the entries logged
-    since (what C02's protocol theorems and C06's layout theorems establish at their level), the tree
-    and bitfield stores hold the state of that flush, the entries lead from that state to the log
-    `a` (`LiveRefine.Trace`: each entry is exactly what an append or a clear logs), and the data store holds
-    `a`'s held blocks, then `Hypercore::new` yields a core satisfying `Rep` for `a` — from which
-    `live_refinement` continues.  Replay = add the entry's nodes, redo the bitfield update, `truncate` to
-    the new length (`full_roots` = reference roots, proved in `FullRoots`) and commit. -/
-theorem reopen_refines (C : Crypto) (hC : HashWF C) (d : Disk) (ost : Oplog.State) (hf : Header) (es : List Entry)
-    (a0 a : Abs) (sk : Bytes)
-    (hlog : Oplog.openLog none d.oplog.toList = .ok ⟨ost, hf, [], es⟩)
-    (hlen : hf.tree.length = a0.blocks.size) (hsig : hf.tree.signature = [] ∨ hf.tree.signature.length = 64)
-    (hsec : hf.secret = some sk)
-    (hN : Offsets.NodesOK C a0.blocks {} d.tree)
-    (hbits : ∀ i, (Bitfield.ofFile d.bitfield).get i = a0.held i) (hlt : ∀ i, a0.held i = true → i < a0.blocks.size)
-    (hcontig : Core.FirstMissing (Bitfield.ofFile d.bitfield) hf.contiguous)
-    (hsmall0 : Small a0) (htrace : LiveRefine.Trace C a0 es a)
-    (hdata : ∀ i, a.held i = true → ∀ k, k < Offsets.sz a.blocks i →
-      Offsets.psum a.blocks i + k < d.data.size ∧ d.data.byte (Offsets.psum a.blocks i + k) = (a.blocks.getD i []).getD k 0)
-    (hsmall : Small a) :
-    ∃ c', Core.openCore C none d = .ok (c', []) ∧ Rep C c' d a :=
-  Reopen.reopen_refines C hC d ost hf es a0 a sk hlog hlen hsig hsec hN hbits hlt hcontig hsmall0 htrace hdata hsmall
-
 /-- every call is also within the size limits of the on-disk formats (see `Persist.Limits`) -/
 def AllLimits (a : Abs) : List Op → Prop
   | [] => True
   | op :: rest => Persist.Limits a op ∧ AllLimits (a.step op).1 rest
 
 /-- `Rep` and the ghost invariant `Persist` along a whole history -/
-theorem history_invariants (C : Crypto) (hC : HashWF C) (hS : SignWF C) (hTw : Persist.TreeWF C) (ops : List Op) :
+theorem history_invariants (C : Crypto) (hC : HashWF C) (hS : SignWF C) (hTw : TreeWF C) (ops : List Op) :
     ∀ (c : Core) (d : Disk) (a : Abs) (hf : Header) (a0 : Abs) (es : List Entry), Rep C c d a →
       Persist.Persist C c d hf a0 es a → AllValid a ops → AllLimits a ops →
       Rep C (runC C (c, d) ops).1.1 (runC C (c, d) ops).1.2 (runA a ops).1
@@ -148,7 +126,7 @@ theorem history_invariants (C : Crypto) (hC : HashWF C) (hS : SignWF C) (hTw : P
     (`Rotation.Inv`) with its byte layout (`OplogBytes.openLog_abs`: `Oplog::open` on the bytes = the
     reader's rule on the abstraction), the flushed tree and bitfield stores (`Persist`), and the replay
     of the logged entries (`Reopen.reopen_refines`). -/
-theorem history_then_reopen (C : Crypto) (hC : HashWF C) (hS : SignWF C) (hTw : Persist.TreeWF C) (pk sk : Bytes)
+theorem history_then_reopen (C : Crypto) (hC : HashWF C) (hS : SignWF C) (hTw : TreeWF C) (pk sk : Bytes)
     (hpk : pk.length = 32) (hsk : sk.length = 32) (ops : List Op) (hv : AllValid {} ops) (hl : AllLimits {} ops) :
     ∃ c j, Core.openCore C (some (pk, some sk)) {} = .ok (c, j) ∧
       ∃ c', Core.openCore C none (runC C (c, ({} : Disk).applyAll j) ops).1.2 = .ok (c', [])
@@ -156,14 +134,11 @@ theorem history_then_reopen (C : Crypto) (hC : HashWF C) (hS : SignWF C) (hTw : 
   obtain ⟨c, j, h1, h2, h3⟩ := Persist.init_both C pk sk hpk hsk
   obtain ⟨hrep, hf, a0, es, hp⟩ := history_invariants C hC hS hTw ops c _ {} _ {} [] h2 h3 hv hl
   refine ⟨c, j, h1, ?_⟩
-  obtain ⟨ost, hlog⟩ := OplogBytes.opinv_open _ _ hf es hp.oplog
-  obtain ⟨sk', hsk'⟩ : ∃ sk', hf.secret = some sk' := by
-    rw [hp.hfSecret]; exact Option.isSome_iff_exists.mp hrep.writer
-  exact Reopen.reopen_refines C hC _ ost hf es a0 _ sk' hlog hp.hfLen hp.hfSig hsk' hp.fileNodes hp.fileBits hp.held0Lt
-    hp.hfContig hp.small0 hp.trace hrep.data hrep.small
+  obtain ⟨c', hopen, hrep', _⟩ := Persist.reopen_persist C hC hTw _ _ hf a0 _ es hrep hp
+  exact ⟨c', hopen, hrep'⟩
 
 /-- histories with reopen steps in the middle: a reopened core continues like the abstract log -/
-theorem reopen_then_continue (C : Crypto) (hC : HashWF C) (hS : SignWF C) (hTw : Persist.TreeWF C) (pk sk : Bytes)
+theorem reopen_then_continue (C : Crypto) (hC : HashWF C) (hS : SignWF C) (hTw : TreeWF C) (pk sk : Bytes)
     (hpk : pk.length = 32) (hsk : sk.length = 32) (ops more : List Op) (hv : AllValid {} ops) (hl : AllLimits {} ops)
     (hv2 : AllValid (runA {} ops).1 more) :
     ∃ c j, Core.openCore C (some (pk, some sk)) {} = .ok (c, j) ∧
@@ -171,6 +146,63 @@ theorem reopen_then_continue (C : Crypto) (hC : HashWF C) (hS : SignWF C) (hTw :
         ∧ (runC C (c', (runC C (c, ({} : Disk).applyAll j) ops).1.2) more).2 = (runA (runA {} ops).1 more).2 := by
   obtain ⟨c, j, h1, c', h2, h3⟩ := history_then_reopen C hC hS hTw pk sk hpk hsk ops hv hl
   exact ⟨c, j, h1, c', h2, (live_refinement C hC more c' _ _ h3 hv2).1⟩
+
+/-- histories with any number of close-and-reopen steps -/
+def runC' (C : Crypto) (s : Core × Disk) : List HStep → (Core × Disk) × List Obs
+  | [] => (s, [])
+  | st :: rest =>
+    let r := stepC' C s st
+    let rr := runC' C r.1 rest
+    (rr.1, r.2 :: rr.2)
+
+def runA' (a : Abs) : List HStep → Abs × List Obs
+  | [] => (a, [])
+  | st :: rest =>
+    let r := a.step' st
+    let rr := runA' r.1 rest
+    (rr.1, r.2 :: rr.2)
+
+def AllOK (a : Abs) : List HStep → Prop
+  | [] => True
+  | .call op :: rest => Valid a op ∧ Persist.Limits a op ∧ AllOK (a.step op).1 rest
+  | .reopen :: rest => AllOK a rest
+
+/-- **C01 in full, on the model.**  For every history of API calls and close-and-reopen steps, starting
+    from any state that satisfies the representation invariant and the ghost invariant: the observations
+    are those of the abstract log — the block list with its held set, unchanged by a reopen — and both
+    invariants hold again at the end. -/
+theorem full_refinement_from (C : Crypto) (hC : HashWF C) (hS : SignWF C) (hTw : TreeWF C) (steps : List HStep) :
+    ∀ (c : Core) (d : Disk) (a : Abs) (hf : Header) (a0 : Abs) (es : List Entry), Rep C c d a →
+      Persist.Persist C c d hf a0 es a → AllOK a steps →
+      (runC' C (c, d) steps).2 = (runA' a steps).2 := by
+  induction steps with
+  | nil => intro c d a hf a0 es _ _ _; rfl
+  | cons st rest ih =>
+    intro c d a hf a0 es h hp hok
+    cases st with
+    | call op =>
+      obtain ⟨h1, h2⟩ := step_refines C hC c d a h op hok.1
+      obtain ⟨hf', a0', es', hp2⟩ := Persist.persist_step C hC hS hTw c d hf a0 a es h hp op hok.1 hok.2.1
+      have := ih _ _ _ hf' a0' es' h2 hp2 hok.2.2
+      simp only [runC', runA', stepC', Abs.step']
+      rw [h1, this]
+    | reopen =>
+      obtain ⟨c', hopen, hrep', hp'⟩ := Persist.reopen_persist C hC hTw c d hf a0 a es h hp
+      have := ih c' d a hf a0 es hrep' hp' hok
+      simp only [runC', runA', stepC', Abs.step', hopen, LiveRefine.applyAll_nil]
+      rw [this]
+
+/-- … in particular from a freshly created core (32-byte key and seed) -/
+theorem full_refinement (C : Crypto) (hC : HashWF C) (hS : SignWF C) (hTw : TreeWF C) (pk sk : Bytes)
+    (hpk : pk.length = 32) (hsk : sk.length = 32) (steps : List HStep) (hok : AllOK {} steps) :
+    ∃ c j, Core.openCore C (some (pk, some sk)) {} = .ok (c, j)
+      ∧ (runC' C (c, ({} : Disk).applyAll j) steps).2 = (runA' {} steps).2 := by
+  obtain ⟨c, j, h1, h2, h3⟩ := Persist.init_both C pk sk hpk hsk
+  exact ⟨c, j, h1, full_refinement_from C hC hS hTw steps c _ {} _ {} [] h2 h3 hok⟩
+
+/-- non-vacuity: a history with two reopen steps is within the quantifier -/
+example : AllOK {} [.call (.append [[1, 2], []]), .reopen, .call (.clear 0 1), .call (.get 0), .reopen, .call (.append [[3]]), .call .info] := by
+  simp [AllOK, Valid, Persist.Limits, Abs.step, totalBytes]
 
 /-- non-vacuity of the hypothesis on the hash functions: a record with constant non-zero 32-byte digests -/
 example : HashWF { leaf := fun _ => List.replicate 32 1, parent := fun _ _ _ => List.replicate 32 2, tree := fun _ => [],
